@@ -424,7 +424,12 @@ func gzipDecode(why string, in []byte, wantData []byte, wantLen int, gen string,
 	if status == 0 && len(g.Data) >= limit {
 		c.Violate("gzip-bomb-accepted", fmt.Sprintf("GZIP.Decode returned %d bytes (limit %d)", len(g.Data), limit), sh, ix, js)
 	}
-	if alloc > 8*limit {
+	// whatever the outcome, the decoder must never have produced more than the limit
+	// (g.Data is assigned before the bomb test, so it is visible after a failed decode too)
+	if len(g.Data) > limit {
+		c.Violate("gzip-read-more-than-limit", fmt.Sprintf("GZIP.Decode (status %d) left %d decompressed bytes in Data, limit %d", status, len(g.Data), limit), sh, ix, js)
+	}
+	if alloc > uint64(len(in))+6*limit {
 		c.Violate("gzip-bomb-allocation", fmt.Sprintf("GZIP.Decode allocated %d bytes in total on a %d-byte input (limit %d)", alloc, len(in), limit), sh, ix, js)
 	}
 	if c.Obs.Extra == nil {
@@ -482,7 +487,6 @@ func gzipEncode(why string, data []byte, gen string) []byte {
 	c.Nontrivial(fmt.Sprintf("ge%d:%x", len(data), data[:min(len(data), 64)]))
 	return b.Buf
 }
-
 
 // genContent returns the chunk generator of a named content kind, driven by its own PRNG so
 // that a replay file (kind, size, seed) regenerates the member exactly.
@@ -923,6 +927,32 @@ func main() {
 		bad2 := append([]byte{}, z...)
 		bad2[len(bad2)-2] ^= 0x01 // ISIZE in the trailer
 		gzipDecode("bad-isize", wrap(bad2), nil, -1, "")
+		// pooled readers: a member that fails (header, mid-stream, trailer, bomb) followed at once
+		// by a valid member -- the valid one must decode exactly as if nothing had happened before
+		for i := 0; i < c.N(24, 400); i++ {
+			d := r.Bytes(r.Range(1, 400))
+			if r.Bool() {
+				d = bytes.Repeat(d[:1+r.Intn(len(d))], r.Range(1, 20))
+			}
+			zd := one(d)
+			var failing []byte
+			switch r.Intn(5) {
+			case 0:
+				failing = wrap(z[:r.Range(1, len(z)-1)])
+			case 1:
+				failing = wrap(bad)
+			case 2:
+				failing = wrap(append(append([]byte{}, z...), r.Bytes(r.Range(1, 9))...))
+			case 3:
+				failing = wrap(r.Bytes(r.Range(0, 30)))
+			default:
+				m := append([]byte{}, zd...)
+				m[r.Intn(len(m))] ^= byte(1 << r.Intn(8))
+				failing = wrap(m)
+			}
+			gzipDecode("pool-failing-first", failing, nil, -1, "")
+			gzipDecode("pool-valid-after-failure", wrap(zd), d, len(d), "")
+		}
 	}
 
 	// ----- generated containers -----
